@@ -259,6 +259,20 @@ func (s *Sim) WriteSource(name string, size int, age time.Duration) {
 	s.lastPerturb = time.Now()
 }
 
+// LinkSource turns the (regular) source file name into a symbolic link to a file with the same
+// content kept outside the outgoing directory.
+func (s *Sim) LinkSource(name string) {
+	p := filepath.Join(s.srcDir, name)
+	dir := s.srcDir + ".linked"
+	os.MkdirAll(dir, 0755)
+	target := filepath.Join(dir, strings.ReplaceAll(name, "/", "_"))
+	if err := os.Rename(p, target); err != nil {
+		return
+	}
+	os.Symlink(target, p)
+	s.t.Note("@%s source %s is a symbolic link to a file outside the outgoing directory", s.clock(), name)
+}
+
 func (s *Sim) clock() string { return time.Since(s.w.started).Round(time.Millisecond).String() }
 
 func (s *Sim) srcHash(name string) string {
